@@ -50,6 +50,7 @@ def relabellings(ci, seed):
             'plus1000': ci + 1000, 'times7': ci * 7, 'reversed': (u.max() + u.min()) - ci,
             'random_injective': np.array([rnd[c] for c in ci.tolist()]), 'zero_based': ci - ci.min(),
             'shuffled': np.array([shuf[c] for c in ci.tolist()]),
+            'fractional': canon.astype(float) / 4.0, 'same_integer_part': 7.0 + canon.astype(float) / (canon.max() + 1.0),
             'all_negative': -ci.astype(np.int64) - 3, 'mixed_sign': ci.astype(np.int64) - int(np.median(u)) - 1}
 
 
@@ -229,7 +230,7 @@ def run(case, bct, REC):
         REC.tag(PROP, 'exec')
         col = rs.randint(m)
         for rname, c2 in relabellings(C[:, col], case['rs']).items():
-            C2 = C.copy()
+            C2 = C.astype(np.result_type(C.dtype, np.asarray(c2).dtype))     # (a float relabelling must not be truncated into an int matrix)
             C2[:, col] = c2
             pair(REC, 'agreement', 'label_invariant', lambda: bct.agreement(C.copy()), lambda: bct.agreement(C2.copy()),
                  {'ci': C, 'relabelled_column': col, 'relabelling': rname})
